@@ -3,3 +3,10 @@ import NTV.Proofs.C07
 #print axioms NTV.C07.trial_division_exact
 #print axioms NTV.C07.trial_division_sound
 #print axioms NTV.C07.zero_and_constants
+#print axioms NTV.C07.product_identity_partial
+#print axioms NTV.C07.product_identity_irreducible_partial
+#print axioms NTV.C07.factor_shape
+#print axioms NTV.C07.factor_shape_exact_partial
+#print axioms NTV.C07.multiplicity_true_coprime_partial
+#print axioms NTV.C07.multiplicity_true_partial
+#print axioms NTV.C07.distinct_partial
